@@ -24,32 +24,46 @@ LEVEL_TEXT = ("Held on every generated problem of the run: methods {default, exa
               "svd over tall/wide/square operators, k in 1..min(m,n). Bounds: n<=10 dense / <=40 davidson (quick), <=80 (thorough), "
               "cond(M)<=10, |eig|<=~20, sigma in [0.1,10].")
 LEVEL_NOTE = ("Trusts scipy.linalg.eigh (LAPACK sygvd/hegvd) and torch.linalg.svdvals on the dense shadow; tolerances are "
-              "C*eps*n*|A|*cond(M) for dense paths and 10*sqrt(n)*min_eps for davidson (its own stopping test), see ASSUMPTIONS.")
+              "C*eps*n*|A|*cond(M) for dense paths and 10*sqrt(n)*min_eps for davidson (its own stopping test), see ASSUMPTIONS. "
+              "Only generated inputs are decided; davidson exits through the full subspace in ~85% of the generated problems (n<=80).")
 RULE = ("seeded sampling over method x M x operator kind x batch pattern x n x neig x mode spelling/entry point x spectrum kind x dtype "
         "(group 'symeig'), and over shape class x k x mode x method x operator kind x batch (group 'svd'); non-trivial = the call returned, "
         "every clause was evaluated, n>=2 (svd: min(m,n)>=2) and, for davidson, the subspace was expanded at least once "
         "(>=2 Rayleigh-Ritz steps counted at the internal slicing function)")
-MIN_NONTRIVIAL = {"quick": 500, "thorough": 6000}
+MIN_NONTRIVIAL = {"quick": 4000, "thorough": 80000}
 ASSUMPTIONS = [
     "M = Q diag(mu) Q^H with mu in [1, kappa_M], kappa_M <= 10; generalised eigenvalues designed in [-20, 20]",
     "distinct eigenvalue groups are >= 0.1 apart (designed spectra); members of a cluster are 1e-5 / 1e-6 / 0 apart; 'free' spectra "
     "(A and M with independent batch shapes) have uncontrolled gaps: there only groups isolated by >= 0.05 are compared as subspaces",
-    "individual eigenvectors are never compared: only eigenvalues, residual, M-orthonormality and the M-orthogonal projector onto complete groups",
-    "davidson: real float64 only (property restricts complex to the dense paths); min_eps in {1e-6 default, 1e-9}; v_init in {randn, rand, eye}",
-    "dense tolerances: 2000*eps*n*(|A|_2+|lambda|_max*|M|_2)*cond(M); davidson adds 10*sqrt(n)*min_eps (residual, values) and "
-    "4*(that)/gap (projectors); M-orthonormality 2000*eps*n*cond(M) (dense), 1e-9 (davidson)",
-    "svd: sigma_min in {0.1, 0.5, 1}, cond <= 10 (rank-deficient input not generated: documented as the naive A^H A route)",
+    "individual eigenvectors are never compared: only eigenvalues, residual, M-orthonormality and the M-orthogonal projector onto "
+    "complete groups (a group cut by neig, or closer than 0.05 to a neighbour, is not compared as a subspace)",
+    "davidson: real float64 only (the property restricts complex to the dense paths); min_eps in {1e-6 default, 1e-9}; v_init in "
+    "{randn, rand, eye}; n <= 40 quick / 80 thorough",
+    "dense tolerances: 2000*eps*n*(|A|_2 + |lambda|_max*|M|_2)*cond(M) for values and residual column norms (|A| = sum of the norms of "
+    "the pieces for composed operators), 2000*eps*n*cond(M) for M-orthonormality; davidson adds 10*sqrt(n)*min_eps to values and "
+    "residuals (its stopping test bounds max|resid| by min_eps), the width of a cluster with internal gaps <= 1e-4 to the values (a pair "
+    "that meets the residual test may be any member of an unresolved cluster), and uses 1e-7 for M-orthonormality; projectors: "
+    "4*sqrt(group size)*cond(M)*(residual tolerance/gap + orthonormality tolerance)",
+    "svd: sigma_min in {0.1, 0.5, 1}, cond <= 10 (rank-deficient input not generated: documented as the naive A^H A route); tolerances "
+    "2000*eps*max(m,n)*|A|*cond (values, A v = s u), *cond^2 for the factor recovered as A v / s and the reconstruction; davidson adds "
+    "10*sqrt(p)*1e-6 / sigma_min (values, A v) and / sigma_min^2 (recovered factor, reconstruction)",
+    "configuration classes carried in the mechanism keys (decided by spies, not by values of the result): ':illcondqr' = the internal "
+    "Cholesky/Householder QR of davidson received a block whose column-scaled Gram matrix has an eigenvalue < 1e-6; ':misconverged' = "
+    "davidson met its residual test (exit before the subspace was full) on M-orthonormal genuine eigenpairs that are all among the "
+    "neig+2 extreme ones at the requested end but skip one of the neig extreme ones",
 ]
 BUDGET = {"quick": {"worker_timeout": 900, "case_timeout": 120}, "thorough": {"worker_timeout": 3300, "case_timeout": 300}}
 REQUIRED_COUNTERS = {
-    "quick": {"path_exacteig": 100, "path_custom_exacteig": 50, "path_davidson": 100, "davidson_exit_converged": 20,
-              "davidson_exit_fullspace": 20, "tallqr_with_M": 50, "cut_straddles_group": 50, "slice_lowest": 100, "slice_uppest": 100,
-              "svd_tall": 20, "svd_wide": 20, "svd_square": 10, "svd_full_k": 20, "with_M": 150, "complex_cases": 50,
-              "batched_M_larger_than_A": 20},
-    "thorough": {"path_exacteig": 1000, "path_custom_exacteig": 500, "path_davidson": 1000, "davidson_exit_converged": 200,
-                 "davidson_exit_fullspace": 200, "tallqr_with_M": 500, "cut_straddles_group": 500, "slice_lowest": 1000,
-                 "slice_uppest": 1000, "svd_tall": 200, "svd_wide": 200, "svd_square": 100, "svd_full_k": 200, "with_M": 1500,
-                 "complex_cases": 500, "batched_M_larger_than_A": 200},
+    "quick": {"path_exacteig": 1500, "path_custom_exacteig": 500, "path_davidson": 900, "davidson_exit_converged": 80,
+              "davidson_exit_fullspace": 800, "davidson_illcond_qr": 10, "tallqr_with_M": 400, "cut_straddles_group": 300,
+              "slice_lowest": 900, "slice_uppest": 900, "svd_tall": 150, "svd_wide": 150, "svd_square": 150, "svd_full_k": 300,
+              "with_M": 1000, "complex_cases": 600, "batched_M_larger_than_A": 80, "groups_compared": 10000,
+              "groups_cut_or_unisolated": 800},
+    "thorough": {"path_exacteig": 30000, "path_custom_exacteig": 10000, "path_davidson": 18000, "davidson_exit_converged": 1500,
+                 "davidson_exit_fullspace": 16000, "davidson_illcond_qr": 200, "tallqr_with_M": 8000, "cut_straddles_group": 6000,
+                 "slice_lowest": 18000, "slice_uppest": 18000, "svd_tall": 3000, "svd_wide": 3000, "svd_square": 3000,
+                 "svd_full_k": 6000, "with_M": 20000, "complex_cases": 12000, "batched_M_larger_than_A": 1500,
+                 "groups_compared": 200000, "groups_cut_or_unisolated": 16000},
 }
 
 EPS = 2.220446049250313e-16
@@ -122,6 +136,12 @@ def cases(seed, tier):
                             "opA": OPKINDS_A[k % len(OPKINDS_A)], "opM": OPKINDS_M[k % len(OPKINDS_M)], "kappaM": 5.0,
                             "batch": [list(ba), list(bm)], "min_eps": None, "v_init": None})
                 k += 1
+    # directed witness (independent of VERIF_SEED) of the listed davidson misconvergence: n=80, neig=1, batch (2,): the Ritz value of
+    # the second batch element sits on the 2nd eigenvalue with residual < 1e-6 during iterations 47-50
+    out.append({"group": "symeig", "directed": "witness_misconvergence", "seed": 178403411, "method": "davidson", "n": 80,
+                "mode": "lowest", "neig": 1, "neig_none": False, "withM": True, "spec": "pos", "straddle": True, "dtype": "float64",
+                "opA": "dense_herm", "opM": "herm_mv", "kappaM": 2.0, "batch": [[2], []], "min_eps": None, "v_init": None,
+                "biggap": 0})
     NS = 1500 if quick else 30000
     for i in range(NS):
         rng = random.Random(sub_seed(seed, "c05v", i))
@@ -356,6 +376,17 @@ def illcond_tag(log):
     return ""
 
 
+def _matches_neighbours(vals, cand, tol):
+    """every value (ascending list) equals a distinct candidate (ascending list) within tol"""
+    used = -1
+    for v in vals:
+        j = next((j for j in range(used + 1, len(cand)) if abs(cand[j] - v) <= tol), None)
+        if j is None:
+            return False
+        used = j
+    return True
+
+
 def new_log():
     return {"take": [], "qr": [], "path": []}
 
@@ -484,6 +515,8 @@ def run_symeig(desc, obs):
     raw = {"evals": 0.0, "resid": 0.0, "orth": 0.0, "sub": 0.0}
     n_groups_compared = 0
     n_groups_skipped = 0
+    evals_fail_classes = []
+    dav_exit_converged = bool(log["take"]) and log["take"][-1][2] < n
     for b in range(nb):
         Ab = Af[b]
         Mb = Mf[b] if Mf is not None else None
@@ -524,6 +557,12 @@ def run_symeig(desc, obs):
         MX = Mb @ Xb if Mb is not None else Xb
         R = Ab @ Xb - MX * Eb.to(dt)
         rn = float(torch.linalg.vector_norm(R, dim=-2).max())
+        if ev > tol_val:
+            # configuration class of the failure: an iteration that met its residual test on genuine eigenpairs next to the
+            # requested end of the spectrum but skipped one (Krylov misconvergence), as opposed to any other wrong answer
+            cand = (w[:neig + 2] if low else w[max(0, n - neig - 2):]).tolist()
+            evals_fail_classes.append(bool(method == "davidson" and dav_exit_converged and rn <= tol_res
+                                           and _matches_neighbours(Eb.tolist(), cand, tol_val)))
         raw["resid"] = max(raw["resid"], rn)
         worst["resid"] = max(worst["resid"], rn / tol_res)
         # (v) M-orthonormality
@@ -566,9 +605,12 @@ def run_symeig(desc, obs):
             n_groups_compared += 1
     obs.count("groups_compared", n_groups_compared)
     obs.count("groups_cut_or_unisolated", n_groups_skipped)
+    mis = ":misconverged" if (evals_fail_classes and all(evals_fail_classes) and worst["resid"] <= 1.0 and worst["orth"] <= 1.0) else ""
+    if mis:
+        obs.count("davidson_misconverged")
     obs.check(worst["order"] <= 1.0, "order:%s" % key, "eigenvalues not in ascending order (violation/tolerance %.3e)" % worst["order"],
               E=E)
-    obs.check(worst["evals"] <= 1.0, "evals:%s" % key,
+    obs.check(worst["evals"] <= 1.0, "evals:%s%s" % (key, mis),
               "returned eigenvalues are not the %d %s of the LAPACK reference: max error %.3e, error/tolerance %.3e" % (
                   neig, "lowest" if low else "uppermost", raw["evals"], worst["evals"]),
               spec=desc["spec"], n=n, neig=neig, opA=desc["opA"], mode=mode, kM=kM, dtype=desc["dtype"])
@@ -578,7 +620,7 @@ def run_symeig(desc, obs):
     obs.check(worst["orth"] <= 1.0, "orth:%s" % key,
               "|X^H M X - I| max entry %.3e, error/tolerance %.3e" % (raw["orth"], worst["orth"]),
               spec=desc["spec"], n=n, neig=neig, opA=desc["opA"], kM=kM, dtype=desc["dtype"])
-    obs.check(worst["sub"] <= 1.0, "subspace:%s" % key,
+    obs.check(worst["sub"] <= 1.0, "subspace:%s%s" % (key, mis),
               "M-orthogonal projector onto a complete eigenvalue group differs from the reference: %.3e, error/tolerance %.3e" % (
                   raw["sub"], worst["sub"]), spec=desc["spec"], n=n, neig=neig, opA=desc["opA"], kM=kM)
     obs.note(ratios={k: float("%.3g" % v) for k, v in worst.items()}, raw={k: float("%.3g" % v) for k, v in raw.items()},
@@ -677,7 +719,15 @@ def run_svd(desc, obs):
     eav = float(torch.linalg.vector_norm(A @ V - U * S.unsqueeze(-2).to(dt), dim=-2).max())
     ratios = {"s": es / tol_s, "orthU": eu / tol_u, "orthV": evv / tol_v, "Av": eav / tol_av}
     raw = {"s": es, "orthU": eu, "orthV": evv, "Av": eav}
-    obs.check(ratios["s"] <= 1, "svd_vals:%s" % key,
+    mis = ""
+    if ratios["s"] > 1 and dav and log["take"] and log["take"][-1][2] < p and ratios["Av"] <= 1 and ratios["orthU"] <= 1 \
+            and ratios["orthV"] <= 1:
+        Sf = torch.sort(S, dim=-1).values.reshape(nb, k)
+        cf = (sref[..., max(0, p - k - 2):] if low else sref[..., :k + 2]).reshape(nb, -1)
+        if all(_matches_neighbours(Sf[b].tolist(), sorted(cf[b].tolist()), tol_s) for b in range(nb)):
+            mis = ":misconverged"
+            obs.count("davidson_misconverged")
+    obs.check(ratios["s"] <= 1, "svd_vals:%s%s" % (key, mis),
               "singular values are not the %d %s of torch.linalg.svdvals: max error %.3e (error/tolerance %.3e)" % (
                   k, "smallest" if low else "largest", es, ratios["s"]), opA=desc["opA"], m=m, n=n, k=k, kappa=kap)
     obs.check(ratios["orthU"] <= 1, "svd_orthU:%s" % key, "|U^H U - I| = %.3e (error/tolerance %.3e)" % (eu, ratios["orthU"]),
